@@ -226,6 +226,31 @@ def run_case(case, res):
                 chk("tree.last_child", t.last_child(), kids["root"][-1] if kids["root"] else None)
             chk("tree.count", t.count, len(order))
             chk("len(tree)", len(t), len(order))
+            from nutree.typed_tree import ANY_KIND as _ANY
+
+            # --- the same tree emptied again (three ways), then refilled: tree-level answers of an empty / one-node tree
+            how = (len(order) + len(case["f"])) % 3
+            if how == 0:
+                t.clear()
+            elif how == 1:
+                for c in list(t.children):
+                    c.remove()
+            else:
+                t.filter(lambda nd: False)
+            res.count("emptied_trees")
+            ch = t.children
+            if not isinstance(ch, list) or ch:
+                bad.append(f"children of an emptied tree (how={how}): got {ch!r}, expected []")
+            chk("emptied tree.get_toplevel_nodes", list(t.get_toplevel_nodes()), [])
+            chk("emptied tree.first_child", t.first_child() if not typed else t.first_child(kind=_ANY), None)
+            chk("emptied tree.last_child", t.last_child() if not typed else t.last_child(kind=_ANY), None)
+            chk("emptied tree.count", (t.count, len(t), t.count_unique, list(t), t.calc_height()), (0, 0, 0, [], 0))
+            nn = t.add("again", **({"kind": "kx"} if typed else {}))
+            chk("refilled tree.children", list(t.children), [nn])
+            chk("refilled tree.first/last", (id(t.first_child() if not typed else t.first_child(kind=_ANY)),
+                                             id(t.last_child() if not typed else t.last_child(kind=_ANY)), t.count), (id(nn), id(nn), 1))
+            chk("refilled node", (nn.parent, nn.depth(), nn.get_index(), nn.is_top() if hasattr(nn, "is_top") else True, list(nn.children)),
+                (None, 1, 0, True, []))
     except CaseTimeout:
         res.inconc("case watchdog fired")
         return
